@@ -544,6 +544,19 @@ def explicit(tier, seed):
                    "sizes": [40000, 40000], "client_auth": False,
                    "resume": False, "rsl": (1500, 4096, 16384, 64)[
                        len(seen) % 4]}
+    # HelloRetryRequest with OpenSSL's hello growing byte by byte across the
+    # sizes at which it adds / resizes / drops the padding extension (the
+    # retried hello is 65 bytes longer: a P-384 share instead of X25519)
+    for sid, v, key in m:
+        s = iana.SUITES[sid]
+        if not s.tls13 or key != "rsa" or sid != 0x1301:
+            continue
+        for ln in range(1, 250, 9 if tier == "quick" else 2):
+            yield {"role": "s", "suite": sid, "ver": list(v), "key": key,
+                   "sizes": [100, 300], "client_auth": False,
+                   "resume": False, "hrr": True, "ossl_default": True,
+                   "alpn": True, "alpn_c": ["h2", "p" * ln],
+                   "alpn_s": ["h2"], "ku": False}
     # client authentication and HelloRetryRequest, per version and role
     seen = set()
     for sid, v, key in m:
